@@ -633,6 +633,8 @@ class Explorer:
             return cache
         out = set()
         copies = []
+        fcopies = []     # dst = move (src.idx)
+        tdefs = []       # lhs = Tuple(op locals)
         for blk in body.blocks:
             for s in blk["stmts"]:
                 if s["k"] != "Assign":
@@ -642,6 +644,14 @@ class Explorer:
                     out.add(rv["place"]["l"])
                 elif rv["k"] == "Use" and not s["lhs"].get("p") and rv["ops"][0]["k"] in ("copy", "move") and not rv["ops"][0]["p"].get("p"):
                     copies.append((s["lhs"]["l"], rv["ops"][0]["p"]["l"]))
+                elif rv["k"] == "Use" and not s["lhs"].get("p") and rv["ops"][0]["k"] in ("copy", "move"):
+                    pr = rv["ops"][0]["p"].get("p") or []
+                    if len(pr) == 1 and isinstance(pr[0], dict) and "f" in pr[0]:
+                        fcopies.append((s["lhs"]["l"], rv["ops"][0]["p"]["l"], pr[0]["i"]))
+                elif rv["k"] == "Aggregate" and rv["agg"]["a"] == "Tuple" and not s["lhs"].get("p"):
+                    tdefs.append((s["lhs"]["l"], [o["p"]["l"] if o["k"] in ("copy", "move") and not o["p"].get("p") else None
+                                                  for o in rv["ops"]]))
+        need = set()
         for blk in body.blocks:
             t = blk["term"]
             if t["k"] == "Call" and _is_try_branch(t) and t["args"] and t["args"][0].get("p") and not t["args"][0]["p"].get("p"):
@@ -653,6 +663,20 @@ class Explorer:
                 if dst in out and src not in out:
                     out.add(src)
                     changed = True
+                for (l, i) in list(need):
+                    if l == dst and (src, i) not in need:
+                        need.add((src, i))
+                        changed = True
+            # a variant carried through a tuple (`let (n, eof, err) = helper(..)`; `if let Some(e) = err`)
+            for dst, src, i in fcopies:
+                if dst in out and (src, i) not in need:
+                    need.add((src, i))
+                    changed = True
+            for lhs, ops in tdefs:
+                for (l, i) in list(need):
+                    if l == lhs and i < len(ops) and ops[i] is not None and ops[i] not in out:
+                        out.add(ops[i])
+                        changed = True
         body._discr_locals = out
         return out
 
@@ -700,9 +724,11 @@ class Explorer:
                 op = rv["op"]
                 val = {"Eq": int(a == b), "Ne": int(a != b), "Lt": int(a < b), "Le": int(a <= b),
                        "Gt": int(a > b), "Ge": int(a >= b), "BitAnd": a & b, "BitOr": a | b}.get(op)
-        elif rv["k"] == "Aggregate" and rv["agg"]["a"] == "Tuple" and rv["ops"]:
+        elif rv["k"] == "Aggregate" and rv["ops"] and (rv["agg"]["a"] == "Tuple" or (
+                rv["agg"]["a"] in ("Closure", "Coroutine", "CoroutineClosure") and rv["agg"].get("spliced"))):
+            # (captured constants of a coroutine whose body was spliced into this one by normalize.py are read back as `_env.N`)
             vs = [self._const_of(o, store) for o in rv["ops"]]
-            vs = [None if isinstance(v, tuple) else v for v in vs]
+            vs = [None if (isinstance(v, tuple) and v[:1] != ("V",)) else v for v in vs]
             if any(v is not None for v in vs):
                 val = ("T", tuple(vs))
         elif rv["k"] == "Aggregate" and rv["agg"]["a"] == "Adt" and (not rv["ops"] or l in self.discr_locals):
